@@ -358,3 +358,109 @@ def gen_compare(rng, cfg, n_cmp):
                 sizes[a] += 1
     lines.append("end")
     return lines
+
+
+def gen_refiter(rng, cfg, n_ops):
+    """two vectors whose elements all have equal field sizes; assignments/swaps through references and iterators,
+    permuting algorithms, iterator arithmetic"""
+    lines = ["tables"]
+    fixed = [rng.choice([1, 2, 3]) for _ in range(cfg.nfixed())]
+    _, pay0, same = gen_elem(rng, cfg, fixed, 3, 10 ** 9)
+    sizes = {}
+    for k in range(2):
+        lines.append("new v%d %d %d %s 1" % (k, 5, 5 * pay0, fixed_text(fixed)))
+        sizes[k] = 0
+        for _ in range(rng.choice([2, 3, 4])):
+            text, pay, _ = gen_elem(rng, cfg, fixed, 3, 10 ** 9, same)
+            lines.append("emplace v%d %s" % (k, text))
+            sizes[k] += 1
+    for _ in range(n_ops):
+        a, b = rng.randrange(2), rng.randrange(2)
+        i, j = rng.randrange(sizes[a]), rng.randrange(sizes[b])
+        op = rng.choice(["refassign", "refassignc", "refmove", "refswap", "iterswap", "rotate", "reverse", "swapranges", "iter", "refswap", "refassign"])
+        if op in ("refassign", "refassignc", "refmove", "refswap", "iterswap"):
+            lines.append("%s v%d %d v%d %d" % (op, a, i, b, j))
+        elif op == "rotate":
+            lines.append("rotate v%d %d" % (a, rng.randint(0, sizes[a])))
+        elif op == "reverse":
+            lines.append("reverse v%d" % a)
+        elif op == "swapranges":
+            lines.append("swapranges v0 v1 %d" % rng.randint(0, min(sizes[0], sizes[1])))
+        else:
+            lines.append("iter v%d" % a)
+    lines.append("end")
+    return lines
+
+
+def gen_element(rng, cfg, n_ops):
+    """standalone elements: construction from references (copy and move), copy/move construction, both
+    assignments between elements of different varying sizes and allocators, swap, assignment back to references"""
+    lines = ["tables"]
+    fixed = [rng.choice([1, 2, 3]) for _ in range(cfg.nfixed())]
+    vshape = {}
+    for k in range(2):
+        lines.append("new v%d %d %d %s %d" % (k, 4, 300, fixed_text(fixed), rng.choice([1, 2])))
+        vshape[k] = []
+        for _ in range(3):
+            text, pay, counts = gen_elem(rng, cfg, fixed, 4, 60)
+            lines.append("emplace v%d %s" % (k, text))
+            vshape[k].append(tuple(counts))
+    eshape = {}   # element slot -> shape or None (moved-from)
+    pocca, pocma, pocs, ae = [c == "1" for c in cfg.alloc]
+    ealloc = {}
+    fixed_cat = cfg.category() in ("fixed", "plain")
+    for _ in range(n_ops):
+        live = [k for k, s in eshape.items() if s is not None]
+        op = rng.choice(["elem", "elemref", "elemmv", "elemcopy", "elemmove", "elemassign", "elemmassign", "elemswap", "elemtoref",
+                         "elemtorefm", "elemfromref", "elemfromrefm", "elemdestroy", "elem", "elemassign", "elemmassign"])
+        if op in ("elem", "elemref", "elemmv"):
+            k = rng.randrange(5)
+            s, i = rng.randrange(2), rng.randrange(3)
+            a = rng.choice([1, 2])
+            lines.append("%s e%d v%d %d %d" % (op, k, s, i, a))
+            eshape[k] = vshape[s][i]
+            ealloc[k] = a
+        elif op in ("elemcopy", "elemmove") and live:
+            a = rng.choice(live)
+            b = rng.choice([x for x in range(5) if x != a])
+            lines.append("%s e%d e%d" % (op, a, b))
+            eshape[b] = eshape[a]
+            ealloc[b] = ealloc[a] if op == "elemmove" else (ealloc[a] + 1 if ealloc[a] >= 100 else ealloc[a])
+            if op == "elemmove":
+                eshape[a] = None
+        elif op in ("elemassign", "elemmassign") and live:
+            a = rng.choice(live)
+            b = rng.choice(list(eshape))
+            steals = ae or pocma or ealloc.get(b) == ealloc.get(a)
+            if a != b and eshape[b] is None and fixed_cat and not (op == "elemmassign" and steals):
+                continue  # field-wise assignment needs live target storage
+            lines.append("%s e%d e%d" % (op, a, b))
+            if a != b:
+                eshape[b] = eshape[a]
+                if op == "elemassign" and pocca:
+                    ealloc[b] = ealloc[a]
+                if op == "elemmassign" and steals:
+                    if pocma:
+                        ealloc[b] = ealloc[a]
+                    eshape[a] = None
+        elif op == "elemswap" and len(live) >= 2:
+            a, b = rng.sample(live, 2)
+            if not (pocs or ae or ealloc[a] == ealloc[b]):
+                continue
+            lines.append("elemswap e%d e%d" % (a, b))
+            eshape[a], eshape[b] = eshape[b], eshape[a]
+            if pocs:
+                ealloc[a], ealloc[b] = ealloc[b], ealloc[a]
+        elif op in ("elemtoref", "elemtorefm", "elemfromref", "elemfromrefm") and live:
+            k = rng.choice(live)
+            cands = [(s, i) for s in range(2) for i in range(3) if vshape[s][i] == eshape[k]]
+            if not cands:
+                continue
+            s, i = rng.choice(cands)
+            lines.append("%s e%d v%d %d" % (op, k, s, i))
+        elif op == "elemdestroy" and eshape:
+            k = rng.choice(list(eshape))
+            lines.append("elemdestroy e%d" % k)
+            del eshape[k]
+    lines.append("end")
+    return lines
